@@ -226,6 +226,49 @@ def query_sequence_rule(ctx, w):
     ctx.ok(rule, f"{rule}:scan", "", f"{n_fields} sequence-typed query fields in {n_vis} RequestQuery deserializers")
 
 
+def error_fields_rule(ctx, w):
+    """(thorough tier.) The body of a client-server error response is written by `impl Serialize for ErrorKind` and read by `impl Deserialize for ErrorKind`
+    (crates/ruma-client-api/src/error/kind_serde.rs), two hand-written siblings. The reader recognises a fixed set of keys (Field::new) and assigns them to
+    variant fields; a key the writer never emits is a variant field that is dropped on the wire (and `current_version`, which the reader requires, makes the
+    whole error undecodable)."""
+    rule = "C16.error-fields"
+    ctx.rule(rule, "ErrorKind: the keys the hand-written Deserialize recognises (Field::new) are exactly the keys the hand-written Serialize can write "
+                   "(serialize_entry with a constant key): a variant field the reader fills but the writer never emits does not survive the wire")
+    fnew = [g for g in w.all_fns() if "body" in g and re.search(r"ruma_client_api::error::kind_serde::Field::<'de>::new$|ruma_client_api::error::kind_serde::Field.*::new$", g["path"])]
+    fser = [g for g in w.all_fns() if "body" in g and re.search(r"kind_serde::<impl serde_core::ser::Serialize for ruma_client_api::error::ErrorKind>::serialize$", g["path"])]
+    if len(fnew) != 1 or len(fser) != 1:
+        ctx.missing(rule, f"{rule}:anchors", f"Field::new ({len(fnew)}) / Serialize for ErrorKind ({len(fser)}) not found")
+        return
+    def consts(fn):
+        out = set()
+        for body in M.all_bodies(fn):
+            txt = json.dumps(body)
+            out |= set(re.findall(r'\{"k": "const", "ty": "&str", "v": "([a-z_]+)"\}', txt))
+        return out
+    read = consts(fnew[0])
+    written = set()
+    for body in M.all_bodies(fser[0]):
+        for _, c in M.calls(body):
+            if M.callee_name(c).endswith("::serialize_entry") and c["args"] and len(c["args"]) > 1:
+                a = c["args"][1]
+                e = PC.expr(body, PC.roots(body), a)
+                written |= set(re.findall(r'"const", "([a-z_]+)"', json.dumps(e)))
+    ctx.floor("keys recognised by the ErrorKind reader", len(read), 8)
+    ctx.floor("keys written by the ErrorKind writer", len(written), 5)
+    lost = sorted(read - written)
+    extra = sorted(written - read)
+    for k_ in sorted(read | written):
+        key = f"{rule}:{k_}"
+        if k_ in lost:
+            ctx.violation(rule, key + ":never-written", w.where(fser[0]),
+                          f"`{k_}` is read into a field of an ErrorKind variant but Serialize for ErrorKind never writes it: the field is dropped from the error response "
+                          f"(a WrongRoomKeysVersion / BadStatus error does not come back as the value that was sent)")
+        elif k_ in extra:
+            ctx.violation(rule, key + ":never-read", w.where(fnew[0]), f"`{k_}` is written by Serialize for ErrorKind but the reader does not recognise it (it lands in the custom extras)")
+        else:
+            ctx.ok(rule, key, w.where(fser[0]), "written and read")
+
+
 def version_literal_rule(ctx, w):
     """The `metadata!` macro turns the version literals of an endpoint's history (`1.14 => "/path"`) into MatrixVersion values through
     MatrixVersion::from_parts; into_parts is its inverse. A wrong table entry records a path under another version, so select_path offers it to
@@ -674,6 +717,7 @@ def run(ctx):
         optional_header_rule(ctx, w)
         query_scalar_rule(ctx, w)
         query_sequence_rule(ctx, w)
+        error_fields_rule(ctx, w)
         # query / body carrier structs of the API crates: an omitted field must be read back as the omitted value
         from . import C18 as _C18
         _C18.defaults_rule(ctx, w, "C16.defaults", {}, floor=1, only=lambda p_: "ruma_common::" not in p_.split(" for ", 1)[-1][:14])
